@@ -2,7 +2,7 @@ from abc import ABC, abstractmethod, abstractproperty
 import numpy as np
 from typing import Sequence, Union, Tuple, TypeVar, Any
 from msdm.core.distributions.dictdistribution import DictDistribution
-from msdm.core.table.tableindex import FieldValue, TableIndex
+from msdm.core.table.tableindex import FieldValue, TableIndex, DomainError
 
 TableKey = Union[FieldValue,Tuple[FieldValue,...]]
 TableEntry = TypeVar("TableEntry")
@@ -71,7 +71,7 @@ class AbstractTable(ABC):
         try:
             value : TableValue =  self[key]
             return value
-        except KeyError:
+        except (KeyError, IndexError, DomainError):
             return default
     
     # np.array-like interface (currently limited)
